@@ -49,10 +49,11 @@ const COMMANDS: [&str; 21] = [
     "map_is_empty", "set_from_array", "set_is_empty", "is_windows", "print_env", "uname", "glob_cp", "join_path",
     "glob_chmod", "sha256sum", "sha512sum", "wget", "base64", "concat", "unset",
 ];
-/// commands with a `while` loop in their script (or calling one that has): an alias script is
-/// run by `eval_instructions`, which never polls the halt flag, so a re-serialisation accident
-/// (known findings of C09) that keeps a `while` condition true cannot be interrupted.  They get
-/// only `[A-Za-z0-9_./*-]` values.
+/// commands with a `while` loop in their script (or calling one that has): a re-serialisation
+/// accident (known findings of C09) can keep a `while` condition true forever.  Since fix 9977171
+/// `eval_instructions` polls the halt flag, so the watchdog would end such a run - but only as an
+/// uninformative `timeout`; they get only `[A-Za-z0-9_./*-]` values (and, for the ones that touch
+/// the file system, only paths inside the private temp tree, see `gen_step`).
 const SAFE_ONLY: [&str; 5] = ["join_path", "glob_cp", "cp_glob", "glob_chmod", "chmod_glob"];
 
 /// (alias, replaced first callee, scope) of the wrapper cases
@@ -231,6 +232,7 @@ fn check_table(model_out: &str) -> String {
     if reg != tab {
         return format!("MISMATCH registry real={:?} model={:?}", reg, tab);
     }
+    let tree = TempTree::new();
     for e in &table {
         // 3. the registered command embeds the script of its directory
         let text = &dirs.iter().find(|(d, _)| *d == e.dir).unwrap().1;
@@ -252,10 +254,18 @@ fn check_table(model_out: &str) -> String {
         // 5. the scope prefix, behaviourally: a caller variable under `<scope>::` is cleared by a
         //    call that passes the argument check, one under `<scope>x::` is not.  (print_env,
         //    wget, glob_cp, glob_chmod get harmless arguments.)
+        let none = format!("{}/none", tree.root());
         let args: Vec<String> = match e.aliases.first().map(|s| s.as_str()).unwrap_or("") {
             "wget" => vec!["http://127.0.0.1:1/none".to_string()],
+            // path arguments: absolute, inside the private temp tree, not existing
+            "glob_cp" | "cp_glob" => vec![none.clone(), format!("{}/dst", tree.root())],
+            "glob_chmod" | "chmod_glob" => vec!["644".to_string(), none.clone()],
+            "sha256sum" | "sha512sum" | "join_path" => vec![none.clone()],
             _ => vec!["c19-none".to_string(); e.amount],
         };
+        if args.len() < e.amount {
+            return format!("MISMATCH probe arguments of {} are fewer than its amount {}", e.name, e.amount);
+        }
         let mut c = sdk_context();
         let inside = format!("{}::c19probe", e.scope);
         let outside = format!("{}x::c19probe", e.scope);
